@@ -1880,6 +1880,50 @@ def load_corpus(ctx):
     return out
 
 
+# ------------------------------------------------------------------ the same command run again on the same database
+def run_resume_cases(ctx, n):
+    """A crawl killed part-way and resumed with the same command on the same --database must stay inside the scope of
+    that command: every request of either run must be one the uninterrupted crawl makes (the crawls are deterministic
+    and the sites static).  Uses the kill/rerun machinery of the C03 engine; oracle only."""
+    import concurrent.futures as cf
+    import multiprocessing as mp
+    from engines import c03
+    from engines import crawl_common as cc
+    rng = ctx.subrng('resume')
+    jobs = []
+    for i in range(n):
+        site = cc.gen_site(rng, size=rng.randint(3, 6), offsite=True)
+        # off-site links on several pages, so that a foreign host is already known to the table when the rerun starts
+        htmls = [p for p, d in site.pages.items() if d['kind'] == 'html']
+        for p in htmls[:3]:
+            site.pages[p]['links'].append(('http://%s/%s' % (cc.OTHER, rng.choice(['', 'x'])), False))
+        opts = cc.gen_options(rng, levelfree=True)
+        opts.pop('input_file', None)
+        desc = site.describe()
+        seed = rng.randrange(1 << 30)
+        conc = rng.choice([1, 2])
+        rc, ex, full = c03.count_points(desc, opts, conc, seed)
+        if rc != 0 or ex is None:
+            continue
+        commits = ex['counters']['commit']
+        for k in sorted(set(rng.sample(range(1, commits + 1), min(commits, 8)))):
+            jobs.append((desc, opts, conc, seed, ('commit', k), full))
+    if not jobs:
+        return
+    with cf.ProcessPoolExecutor(max_workers=min(ctx.jobs, len(jobs)), mp_context=mp.get_context('fork')) as ex_:
+        results = list(ex_.map(c03.one_kill, [j[:5] for j in jobs]))
+    for (desc, opts, conc, seed, kill, full), r in zip(jobs, results):
+        case = {'stream': 'resume', 'site': desc, 'opts': opts, 'conc': conc, 'seed': seed, 'kill': list(kill)}
+        ctx.case(json.dumps(case, sort_keys=True, default=str), nontrivial=r['killed'], tags=['resume:' + ('killed' if r['killed'] else 'completed')])
+        if not r['killed']:
+            continue
+        allowed = {cc.norm(u, '') or u for u in full}
+        extra = sorted({cc.norm(u, '') or u for u in r['req1'] + r['req2']} - allowed)
+        if extra:
+            ctx.fail('out-of-scope-request', 'resumed-crawl', case,
+                     'the killed run and its rerun requested URLs the uninterrupted crawl never requests: %s' % extra[:5])
+
+
 def replay(ctx, case, kind=None, where=None):
     s = case.get('stream', 'test')
     with CallLog() as log:
@@ -1899,6 +1943,15 @@ def replay(ctx, case, kind=None, where=None):
             run_ftp_cases(ctx, [case], log)
         elif s == 'ftpcrawl':
             run_ftp_crawls(ctx, [{k: case[k] for k in ('argv', 'hostnames', 'url', 'glob')}], log)
+        elif s == 'resume':
+            from engines import c03
+            from engines import crawl_common as cc
+            rc, ex, full = c03.count_points(case['site'], case['opts'], case['conc'], case['seed'])
+            r = c03.one_kill((case['site'], case['opts'], case['conc'], case['seed'], tuple(case['kill'])))
+            ctx.case(('resume', case['seed'], tuple(case['kill'])))
+            extra = sorted({cc.norm(u, '') or u for u in r['req1'] + r['req2']} - {cc.norm(u, '') or u for u in full})
+            if extra:
+                ctx.fail('out-of-scope-request', 'resumed-crawl', case, 'requested only by the killed run / its rerun: %s' % extra[:5])
         elif s == 'crawl':
             case = dict(case)
             case['site'] = {h: {t: (dict(p, links=[tuple(l) for l in p['links']]) if 'links' in p else p) for t, p in ps.items()}
@@ -1972,6 +2025,7 @@ def run(ctx):
             cc_['site']['a.test']['/d/']['links'] += [('/d/f1.html', 'frame'), ('http://b.test/fr.html', 'frame')]
             ccases.append(cc_)
     run_crawl_cases(ctx, ccases)
+    run_resume_cases(ctx, ctx.scale(3, 40))
 
 
 def search(ctx):
